@@ -35,11 +35,14 @@ def child_env():
     return env
 
 
-def run_json(cmd, spec, timeout):
+def run_json(cmd, spec, timeout, extra_env=None):
     t0 = time.time()
+    env = child_env()
+    if extra_env:
+        env.update({k: str(v) for k, v in extra_env.items()})
     try:
         p = subprocess.run(cmd, input=json.dumps(spec), capture_output=True, text=True, timeout=timeout,
-                           env=child_env(), cwd=ROOT)
+                           env=env, cwd=ROOT)
     except subprocess.TimeoutExpired:
         return None, "worker timeout after %.0fs" % (time.time() - t0)
     if p.returncode != 0:
@@ -88,7 +91,7 @@ def sha_src(obj):
 
 def replay_x(module, fn, part, call):
     spec = {"module": module, "fn": fn, "part": part, "args": call["args"], "kwargs": call["kwargs"]}
-    out, err = run_json([PY_PLAIN, "-m", "vf.replay"], spec, 300)
+    out, err = run_json([PY_PLAIN, "-m", "vf.replay"], spec, 300, extra_env=(part or {}).get("_env"))
     if out is None:
         return {"reproduced": None, "error": err}
     return out
@@ -162,7 +165,8 @@ def run_check(pid, tier, only=None):
 
     def do(task):
         ob, chunk, cmd, spec, budget = task
-        out, err = run_json(cmd, spec, budget)
+        # a partition may pin ambient interpreter state for its worker process (e.g. {"_env": {"PYTHONHASHSEED": "3"}})
+        out, err = run_json(cmd, spec, budget, extra_env=chunk[0].get("_env") if chunk and isinstance(chunk[0], dict) else None)
         return ob, chunk, out, err
 
     with concurrent.futures.ThreadPoolExecutor(max_workers=NCPU) as ex:
